@@ -125,6 +125,10 @@ class Native:
         self.fn = fn
 
 
+class DepthLimit(AnalysisError):
+    """The call depth of one evaluation exceeded its bound (the evaluated code recurses without bound on this input, or the bound is too small)."""
+
+
 class StepLimit(AnalysisError):
     """The step budget of one evaluation ran out (the evaluated code loops on this input, or the budget is too small)."""
 
@@ -236,7 +240,7 @@ class Interp:
         self.depth += 1
         if self.depth > self.max_depth:
             self.depth -= 1
-            raise AnalysisError(f"inlining depth {self.max_depth} exceeded at {fn.qualname}")
+            raise DepthLimit(f"inlining depth {self.max_depth} exceeded at {fn.qualname}")
         try:
             env = Env(fn.module, closure_env, fn.cls)
             self._bind_args(fn.node, env, args, kwargs, fn.qualname)
